@@ -376,7 +376,7 @@ static int cmd_batch(int argc, char **argv) {
 	if (!out) { perror(argv[9]); return 2; }
 	snprintf(errpath, sizeof errpath, "%s.err", argv[9]);
 	struct timespec t0; clock_gettime(CLOCK_MONOTONIC, &t0);
-	int timeout_s = (cfg & CFG_ASAN) ? 120 : 60;
+	int timeout_s = (cfg & CFG_ASAN) ? 360 : 180;   // wall clock, generous: a loaded machine must never turn a slow run into a watchdog hit
 	uint64_t done = 0;
 	// totals
 	uint64_t tot_steps = 0, tot_switch = 0, tot_simns = 0, tot_hooks = 0, tot_mem = 0, tot_idle = 0, tot_threads = 0;
@@ -477,7 +477,7 @@ static int cmd_enum(int argc, char **argv) {
 		memset(&RC, 0, sizeof RC);
 		RC.seed = run_seed(base ^ 0x656e756d, PROP->id, cfg, index); RC.cfg = cfg;
 		replay_tape = NULL;
-		outcome o; fork_run(&o, 60);
+		outcome o; fork_run(&o, (cfg & CFG_ASAN) ? 360 : 180);
 		if (!(o.kind == 0 && o.res.verdict == V_OK)) continue;   // only programs whose fault-free run is clean and complete
 		int ncalls = (int)o.res.counters[cidx];
 		if (ncalls <= 0) continue;
@@ -486,7 +486,7 @@ static int cmd_enum(int argc, char **argv) {
 		for (int c = 0; c < ncalls; c++) for (unsigned k = 0; k < sizeof kinds / sizeof kinds[0]; k++) {
 			snprintf(tape, sizeof tape, "force\n-1 iofault %d %d\n", c, kinds[k]);
 			replay_tape = tape;
-			outcome f; fork_run(&f, 60);
+			outcome f; fork_run(&f, (cfg & CFG_ASAN) ? 360 : 180);
 			pairs++;
 			if (f.have_res) for (int q = 0; q < IOF_N; q++) fired[q] += f.res.st.iofault[q];
 			const char *verdict = "ok"; char clause[256] = "-", msg[1400] = "", hh[17], th[17], sg[17];
